@@ -245,6 +245,10 @@ Bump(T, R) ==   \* +1 to the counter of every step path in R
         [T[b][k] EXCEPT !.cnt = [s \in DOMAIN @ |-> @[s] + (IF <<b, k, s>> \in R THEN 1 ELSE 0)]]]]
 SamePlace(S, l) == l \in DOMAIN S.origin /\ S.origin[l] = l
 
+\* value of the variable the bystander step owns after t ticks (t + 1 step phases:
+\* it adds 1 in the 1st, 3rd, 5th ... phase)
+Bys(t) == (t + 2) \div 2
+
 TickS(op) ==
   /\ ~err /\ now < MaxTicks
   /\ OpOK(tree, op) /\ op.op # "addex"
